@@ -3,6 +3,17 @@ Require Import Coq.Strings.String.
 From Verif Require Import Base.Prim Base.PrimFacts Base.Str Cbor.Codec Cbor.CodecFacts Suit.Py Suit.Ty Suit.Interp.
 Open Scope Z_scope.
 
+Lemma find_idx_nth' {A} (p : A -> bool) (l : list A) i x : find_idx p l O = Some (i, x) -> nth_error l i = Some x /\ p x = true.
+Proof.
+  assert (G : forall k, find_idx p l k = Some (i, x) -> (k <= i)%nat /\ nth_error l (i - k) = Some x /\ p x = true).
+  { induction l as [|y r IH]; intros k Hf; cbn [find_idx] in Hf; [discriminate|]. destruct (p y) eqn:E.
+    - injection Hf as <- <-. rewrite Nat.sub_diag. auto.
+    - apply IH in Hf. destruct Hf as (Hk & Hn & Hp). split; [lia|]. split; [|assumption].
+      replace (i - k)%nat with (S (i - S k)) by lia. exact Hn. }
+  intros Hf. destruct (G O Hf) as (_ & Hn & Hp). rewrite Nat.sub_0_r in Hn. auto.
+Qed.
+
+
 Section Digest.
   Variable env : list (bytes * ty).
   Variable hash_names : list bytes.
@@ -10,6 +21,7 @@ Section Digest.
   Variable severable_ids : list Z.
   Notation update_digest' := (update_digest env hash_names H).
   Notation update_sev' := (update_severable_digests env hash_names H severable_ids).
+  Notation sev_step' := (sev_step env hash_names H).
   Notation hash_of' := (hash_of hash_names H).
 
   Lemma kv_get_set_same l i x : kv_get (kv_set l i x) i = Some x.
@@ -78,4 +90,201 @@ Section Digest.
   (* to_cbor of a cbstr node is exactly one byte-string layer around the inner encoding *)
   Lemma to_cbor_cbstr f t v b : to_cbor env (S f) (TCbstr t) v = Ok b -> exists b0, to_cbor env f t v = Ok b0 /\ b = ser (CBytes b0).
   Proof. cbn [to_cbor to_cbor_body]. destruct (to_cbor env f t v) as [b0|]; cbn [bind]; [|discriminate]. intros [= <-]. eauto. Qed.
+
+  (* ---- severable members ---- *)
+  (* a step for another member leaves the entry of this member alone *)
+  Lemma sev_step_other tc em mm ents ments s m1 sid si se :
+    sev_step' tc em mm ents ments s = Ok m1 -> s <> sid ->
+    find_idx (fun x => key_id x =? sid) mm O = Some (si, se) -> kv_get m1 si = kv_get ments si.
+  Proof.
+    intros Hs Hne Hf. unfold sev_step in Hs.
+    destruct (find_idx (fun x => key_id x =? s) mm O) as [[si' se']|] eqn:Ef; [|injection Hs as <-; reflexivity].
+    assert (Hidx : si' <> si).
+    { intros ->. destruct (find_idx_nth' _ _ _ _ Ef) as (Hn1 & Hp1). destruct (find_idx_nth' _ _ _ _ Hf) as (Hn2 & Hp2).
+      rewrite Hn1 in Hn2. injection Hn2 as ->. lia. }
+    destruct (kv_get ments si') as [[c|ai dv|l|l|l|v]|]; try (injection Hs as <-; reflexivity).
+    destruct (nth_error (alts_of env (key_ty se')) ai) as [at_|]; [|injection Hs as <-; reflexivity].
+    destruct (is_ref at_ "SuitDigest"); [|injection Hs as <-; reflexivity].
+    destruct (digest_alg dv) as [alg|]; cbn [bind] in Hs; [|discriminate].
+    destruct (find_idx (fun x => key_id x =? s) em O) as [[ei ee]|]; [|discriminate].
+    destruct (kv_get ents ei) as [ev|]; [|injection Hs as <-; reflexivity].
+    destruct (tc (key_ty ee) ev) as [data|]; cbn [bind] in Hs; [|discriminate].
+    destruct (hash_of' alg data) as [h|]; cbn [bind] in Hs; [|discriminate].
+    destruct (digest_set dv h) as [dv'|]; cbn [bind] in Hs; [|discriminate].
+    injection Hs as <-. apply kv_get_set_other. assumption.
+  Qed.
+
+  Lemma sev_fold_other tc em mm ents sids : forall ments m1 sid si se,
+    foldM (sev_step' tc em mm ents) sids ments = Ok m1 -> ~ In sid sids ->
+    find_idx (fun x => key_id x =? sid) mm O = Some (si, se) -> kv_get m1 si = kv_get ments si.
+  Proof.
+    induction sids as [|s sids IH]; intros ments m1 sid si se Hf Hnot Hidx; cbn [foldM] in Hf.
+    - injection Hf as <-. reflexivity.
+    - destruct (sev_step' tc em mm ents ments s) as [m0|] eqn:Es; cbn [bind] in Hf; [|discriminate].
+      rewrite (IH m0 m1 sid si se Hf); [|intros Hin; apply Hnot; right; assumption|assumption].
+      eapply sev_step_other; [eassumption| |eassumption]. intros ->. apply Hnot. left. reflexivity.
+  Qed.
+
+  (* update_severable_digests, per member: when the manifest references the member by digest and the member is present in
+     the envelope, the recorded digest becomes H(alg, to_cbor of THAT envelope member under its envelope type) *)
+  Theorem sev_fold_spec tc em mm ents sids : forall ments m1, NoDup sids ->
+    foldM (sev_step' tc em mm ents) sids ments = Ok m1 ->
+    forall sid si se ai dv at_ ei ee ev, In sid sids ->
+      find_idx (fun x => key_id x =? sid) mm O = Some (si, se) ->
+      kv_get ments si = Some (VUnion ai dv) ->
+      nth_error (alts_of env (key_ty se)) ai = Some at_ -> is_ref at_ "SuitDigest" = true ->
+      find_idx (fun x => key_id x =? sid) em O = Some (ei, ee) -> kv_get ents ei = Some ev ->
+      exists alg data h dv',
+        digest_alg dv = Ok alg /\ tc (key_ty ee) ev = Ok data /\ hash_of' alg data = Ok h /\ digest_set dv h = Ok dv'
+        /\ kv_get m1 si = Some (VUnion ai dv').
+  Proof.
+    induction sids as [|s sids IH]; intros ments m1 Hnd Hf sid si se ai dv at_ ei ee ev Hin Hidx Hget Hat Hisd Hei Hev; [destruct Hin|].
+    cbn [foldM] in Hf. destruct (sev_step' tc em mm ents ments s) as [m0|] eqn:Es; cbn [bind] in Hf; [|discriminate].
+    inversion Hnd as [|? ? Hnotin Hnd']; subst.
+    destruct (Z.eq_dec s sid) as [->|Hne].
+    - (* this is the step for sid *)
+      unfold sev_step in Es. rewrite Hidx, Hget, Hat, Hisd in Es.
+      destruct (digest_alg dv) as [alg|] eqn:Ealg; cbn [bind] in Es; [|discriminate].
+      rewrite Hei, Hev in Es.
+      destruct (tc (key_ty ee) ev) as [data|] eqn:Ed; cbn [bind] in Es; [|discriminate].
+      destruct (hash_of' alg data) as [h|] eqn:Eh; cbn [bind] in Es; [|discriminate].
+      destruct (digest_set dv h) as [dv'|] eqn:Eds; cbn [bind] in Es; [|discriminate].
+      injection Es as <-. exists alg, data, h, dv'. repeat (split; [reflexivity || assumption|]).
+      rewrite (sev_fold_other tc em mm ents sids _ m1 sid si se Hf Hnotin Hidx). apply kv_get_set_same.
+    - destruct Hin as [->|Hin]; [congruence|].
+      eapply (IH m0 m1 Hnd' Hf sid si se ai dv at_ ei ee ev); try eassumption.
+      rewrite (sev_step_other tc em mm ents ments s m0 sid si se Es Hne Hidx). assumption.
+  Qed.
+
+  (* update_severable_digests touches only the manifest member of the envelope object *)
+  Lemma update_sev_shape tc root e e' :
+    update_sev' tc root e = Ok e' ->
+    exists ents em mi me ments mm ments',
+      e = VTagged (VKV ents) /\ envelope_map env root = Some em
+      /\ find_idx (fun x => key_id x =? 3) em O = Some (mi, me)
+      /\ kv_get ents mi = Some (VKV ments) /\ map_of env (key_ty me) = Some mm
+      /\ foldM (sev_step' tc em mm ents) severable_ids ments = Ok ments'
+      /\ e' = VTagged (VKV (kv_set ents mi (VKV ments'))).
+  Proof.
+    unfold update_severable_digests. destruct e as [c|j v|l|l|l|v]; try discriminate.
+    destruct v as [c|j v'|l|ents|l|v']; try discriminate.
+    destruct (envelope_map env root) as [em|]; [|discriminate].
+    destruct (find_idx (fun x => key_id x =? 3) em O) as [[mi me]|] eqn:Em; [|discriminate].
+    destruct (kv_get ents mi) as [[c|j v'|l|ments|l|v']|] eqn:Eg; try discriminate;
+      destruct (map_of env (key_ty me)) as [mm|] eqn:Emm; try discriminate.
+    destruct (foldM (sev_step' tc em mm ents) severable_ids ments) as [ments'|] eqn:Ef; cbn [bind]; [|discriminate].
+    intros [= <-]. do 7 eexists. repeat (split; [reflexivity || eassumption|]). reflexivity.
+  Qed.
+
+  (* the steps only ever replace a digest object by the same object with new digest bytes *)
+  Lemma sev_step_shape tc em mm ents ments s m1 si ai dv' :
+    sev_step' tc em mm ents ments s = Ok m1 -> kv_get m1 si = Some (VUnion ai dv') ->
+    exists dv0, kv_get ments si = Some (VUnion ai dv0).
+  Proof.
+    intros Hs Hg. unfold sev_step in Hs.
+    destruct (find_idx (fun x => key_id x =? s) mm O) as [[si' se']|] eqn:Ef; [|injection Hs as <-; eauto].
+    destruct (kv_get ments si') as [[c|ai0 dv|l|l|l|v]|] eqn:Eg; try (injection Hs as <-; eauto; fail).
+    destruct (nth_error (alts_of env (key_ty se')) ai0) as [at_|]; [|injection Hs as <-; eauto].
+    destruct (is_ref at_ "SuitDigest"); [|injection Hs as <-; eauto].
+    destruct (digest_alg dv) as [alg|]; cbn [bind] in Hs; [|discriminate].
+    destruct (find_idx (fun x => key_id x =? s) em O) as [[ei ee]|]; [|discriminate].
+    destruct (kv_get ents ei) as [ev|]; [|injection Hs as <-; eauto].
+    destruct (tc (key_ty ee) ev) as [data|]; cbn [bind] in Hs; [|discriminate].
+    destruct (hash_of' alg data) as [h|]; cbn [bind] in Hs; [|discriminate].
+    destruct (digest_set dv h) as [dv1|]; cbn [bind] in Hs; [|discriminate].
+    injection Hs as <-. destruct (Nat.eq_dec si' si) as [->|Hne].
+    - rewrite kv_get_set_same in Hg. injection Hg as <- <-. eauto.
+    - rewrite kv_get_set_other in Hg by assumption. eauto.
+  Qed.
+
+  Lemma sev_fold_shape tc em mm ents sids : forall ments m1 si ai dv',
+    foldM (sev_step' tc em mm ents) sids ments = Ok m1 -> kv_get m1 si = Some (VUnion ai dv') ->
+    exists dv0, kv_get ments si = Some (VUnion ai dv0).
+  Proof.
+    induction sids as [|s sids IH]; intros ments m1 si ai dv' Hf Hg; cbn [foldM] in Hf.
+    - injection Hf as <-. eauto.
+    - destruct (sev_step' tc em mm ents ments s) as [m0|] eqn:Es; cbn [bind] in Hf; [|discriminate].
+      destruct (IH m0 m1 si ai dv' Hf Hg) as (dv1 & H1). eapply sev_step_shape; eassumption.
+  Qed.
 End Digest.
+
+(* ---- C01 at the level of the object that create serialises ---- *)
+Section Create.
+  Variable env : list (bytes * ty).
+  Variable hash_names : list bytes.
+  Variable H : bytes -> bytes -> res bytes.
+  Variable uuid5 : bytes -> bytes -> res bytes.
+  Variable fs : bytes -> option bytes.
+  Variable json_loads : bytes -> res cbor.
+  Variable json_dumps : cbor -> res bytes.
+  Variable severable_ids steps_prepare steps_processed steps_digest_ext : list Z.
+  Notation create' := (create env hash_names H uuid5 fs json_loads json_dumps severable_ids steps_prepare steps_processed steps_digest_ext).
+  Notation hash_of' := (hash_of hash_names H).
+  Let root := s2b "SuitEnvelopeTagged".
+
+  Hypothesis Hsteps : steps_prepare = [1; 2].            (* update_severable_digests, then update_digest, then to_cbor *)
+  Hypothesis Hnd : NoDup severable_ids.
+  Hypothesis Hsev : forall sid, In sid severable_ids -> sid <> 2 /\ sid <> 3.
+
+  Lemma idx_distinct (em : list (bytes * Z * ty)) a b ia ea ib eb :
+    a <> b -> find_idx (fun x => key_id x =? a) em O = Some (ia, ea) -> find_idx (fun x => key_id x =? b) em O = Some (ib, eb) -> ia <> ib.
+  Proof.
+    intros Hne Ha Hb ->. destruct (find_idx_nth' _ _ _ _ Ha) as (H1 & P1). destruct (find_idx_nth' _ _ _ _ Hb) as (H2 & P2).
+    rewrite H1 in H2. injection H2 as ->. lia.
+  Qed.
+
+  Theorem create_digests fuel o out :
+    create' fuel o = Ok out ->
+    exists ents em mm ai ae mi me ments,
+      to_cbor env fuel (TRef root) (VTagged (VKV ents)) = Ok out
+      /\ envelope_map env root = Some em
+      /\ find_idx (fun x => key_id x =? 2) em O = Some (ai, ae)
+      /\ find_idx (fun x => key_id x =? 3) em O = Some (mi, me)
+      /\ kv_get ents mi = Some (VKV ments) /\ map_of env (key_ty me) = Some mm
+      (* the authentication wrapper's digest is the hash of the manifest member AS IT IS SERIALISED in this envelope *)
+      /\ (exists j a blocks alg mb h,
+             kv_get ents ai = Some (VSeq (VUnion j (VSeq [VRaw alg; VRaw (CBytes h)]) :: blocks)) /\ a = alg
+             /\ to_cbor env fuel (key_ty me) (VKV ments) = Ok mb /\ hash_of' alg mb = Ok h)
+      (* every severable member referenced by digest and present: the digest is the hash of that member as serialised *)
+      /\ (forall sid si se ai' dv at_ ei ee ev, In sid severable_ids ->
+             find_idx (fun x => key_id x =? sid) mm O = Some (si, se) ->
+             kv_get ments si = Some (VUnion ai' dv) ->
+             nth_error (alts_of env (key_ty se)) ai' = Some at_ -> is_ref at_ "SuitDigest" = true ->
+             find_idx (fun x => key_id x =? sid) em O = Some (ei, ee) -> kv_get ents ei = Some ev ->
+             exists j alg data h,
+               dv = VUnion j (VSeq [VRaw alg; VRaw (CBytes h)])
+               /\ to_cbor env fuel (key_ty ee) ev = Ok data /\ hash_of' alg data = Ok h).
+  Proof.
+    unfold create. fold root. rewrite Hsteps.
+    destruct (from_obj _ _ _ _ _ _ _ _ _ _ fuel (TRef root) o) as [e0|] eqn:E0; cbn [bind]; [|discriminate].
+    unfold apply_steps. cbn [foldM]. change (1 =? 1) with true. cbv iota.
+    destruct (update_severable_digests env hash_names H severable_ids (fun t' v' => to_cbor env fuel t' v') root e0) as [e1|] eqn:E1; cbn [bind]; [|discriminate].
+    change (2 =? 1) with false. change (2 =? 2) with true. cbv iota.
+    destruct (update_digest env hash_names H (fun t' v' => to_cbor env fuel t' v') root e1) as [e2|] eqn:E2; cbn [bind]; [|discriminate].
+    intros Hout.
+    destruct (update_sev_shape _ _ _ _ _ _ _ _ E1) as (ents0 & em & mi & me & ments0 & mm & ments' & -> & Hem & Hmi & Hg0 & Hmm & Hfold & ->).
+    destruct (update_digest_spec _ _ _ _ _ _ _ E2) as (ents1 & em' & ai & ae & mi' & me' & mv & d & blocks & alg & mb & h & d' & He1 & Hem' & Hai & Hmi' & Hga & Hgm & Halg & Hmb & Hh & Hds & ->).
+    injection He1 as <-. rewrite Hem in Hem'. injection Hem' as <-. rewrite Hmi in Hmi'. injection Hmi' as <- <-.
+    rewrite kv_get_set_same in Hgm. injection Hgm as <-.
+    assert (Hami : ai <> mi) by (eapply (idx_distinct em 2 3); [lia|eassumption|eassumption]).
+    destruct (digest_set_bytes _ _ _ Hds) as (j & a & old & -> & ->).
+    exists (kv_set (kv_set ents0 mi (VKV ments')) ai (VSeq (VUnion j (VSeq [a; VRaw (CBytes h)]) :: blocks))), em, mm, ai, ae, mi, me, ments'.
+    split; [exact Hout|]. split; [assumption|]. split; [assumption|]. split; [assumption|].
+    split; [rewrite kv_get_set_other by assumption; apply kv_get_set_same|]. split; [assumption|].
+    split.
+    - cbn [digest_alg] in Halg. destruct a as [ca|?|?|?|?|?]; try discriminate. injection Halg as ->.
+      exists j, alg, blocks, alg, mb, h. split; [apply kv_get_set_same|]. auto.
+    - intros sid si se ai' dv at_ ei ee ev Hin Hsi Hgs Hat Hisd Hei Hev.
+      destruct (Hsev sid Hin) as [Hs2 Hs3].
+      assert (Heim : ei <> mi) by (eapply (idx_distinct em sid 3); eassumption).
+      assert (Heia : ei <> ai) by (eapply (idx_distinct em sid 2); eassumption).
+      rewrite kv_get_set_other in Hev by auto. rewrite kv_get_set_other in Hev by auto.
+      destruct (sev_fold_shape _ _ _ _ _ _ _ _ _ _ _ _ _ Hfold Hgs) as (dv0 & Hg00).
+      destruct (sev_fold_spec _ _ _ _ _ _ _ _ _ _ Hnd Hfold sid si se ai' dv0 at_ ei ee ev Hin Hsi Hg00 Hat Hisd Hei Hev)
+        as (alg' & data & h' & dv' & Halg' & Hdata & Hh' & Hds' & Hfin).
+      rewrite Hfin in Hgs. injection Hgs as <-.
+      destruct (digest_set_bytes _ _ _ Hds') as (j' & a' & old' & -> & ->).
+      cbn [digest_alg] in Halg'. destruct a' as [ca|?|?|?|?|?]; try discriminate. injection Halg' as ->.
+      exists j', alg', data, h'. auto.
+  Qed.
+End Create.
